@@ -22,7 +22,8 @@ esac
 TEST=$(basename "$DEMO" .rs)
 CREATED_TESTS_DIR=0; [ -d "$WT/$D/tests" ] || { mkdir -p "$WT/$D/tests"; CREATED_TESTS_DIR=1; }
 cp "$ROOT/$OUT/demo/$DEMO" "$WT/$D/tests/$DEMO" || exit 2
-run_demo() { nice -n 5 cargo test -p "$CRATE" --offline -j 6 --test "$TEST" -- --test-threads 4 >>"$LOG" 2>&1; }
+# CONFIRM_FEATURES (e.g. "--features testing") and CONFIRM_RUSTFLAGS (e.g. "--cfg midnight_zk_verif") apply to the demo only
+run_demo() { RUSTFLAGS="${CONFIRM_RUSTFLAGS:-}" nice -n 5 cargo test -p "$CRATE" ${CONFIRM_FEATURES:-} --offline -j 6 --test "$TEST" -- --test-threads 4 >>"$LOG" 2>&1; }
 echo "== demo without patch" >>"$LOG"; run_demo; A=$?
 git apply "$ROOT/$OUT/patch.diff" >>"$LOG" 2>&1 || { echo "PATCH DOES NOT APPLY"; exit 2; }
 echo "== demo with patch" >>"$LOG"; run_demo; B=$?
